@@ -36,6 +36,8 @@ def shards(tier, seed):
         out.append({"name": f"{kind}-write-failure", "kind": kind, "what": "write_failure", "tier": tier, "seed": seed})
     for kind in simgw.KINDS:
         out.append({"name": f"{kind}-unencodable", "kind": kind, "what": "unencodable", "tier": tier, "seed": seed})
+    for kind in ("ebyte", "yd"):
+        out.append({"name": f"{kind}-reconnect-during-send", "kind": kind, "what": "reconnect_during_send", "tier": tier, "seed": seed})
     return out
 
 
@@ -241,6 +243,20 @@ def run_unencodable(spec, acc):
         m4 = copy.deepcopy(good)
         m4.priority = 9
         bad.append(("priority_out_of_range", m4))
+        # header values that are missing / of the wrong type (e.g. a message parsed from JSON with nulls)
+        m5 = copy.deepcopy(good)
+        m5.priority = None
+        bad.append(("header_priority_missing", m5))
+        if ((d.pgn >> 8) & 0xFF) < 240:          # the destination is part of the identifier only for addressed PGNs
+            m6 = copy.deepcopy(good)
+            m6.destination = None
+            bad.append(("header_destination_missing", m6))
+        m7 = copy.deepcopy(good)
+        m7.source = "7"
+        bad.append(("header_source_wrong_type", m7))
+        m8 = copy.deepcopy(good)
+        m8.fields[0] = {"id": m8.fields[0].id, "value": 1}
+        bad.append(("field_object_wrong_type", m8))
     for label, m in bad:
         async def scenario(sim, m=m):
             sim.spawn("connect")
@@ -310,7 +326,93 @@ def run_write_failure(spec, acc):
         cleanup()
 
 
+def run_reconnect_during_send(spec, acc):
+    """A sender is parked in drain() (flow control) when the peer half-closes; the client reconnects and further
+    sends start on the new link while the parked sender resumes. On every link the packets of one message must
+    stay together (a message cut short by the fault may appear as a head on the old link / a tail on the new one)."""
+    dbx = refdb.db()
+    kind = spec["kind"]
+    rng = gen.rng_for(spec["seed"], ID, spec["name"])
+    quick = spec["tier"] == "quick"
+    box, cleanup = install_stub()
+    try:
+        for rep in range(40 if quick else 600):
+            nA, nB, nC = rng.choice([20, 27, 50]), rng.choice([13, 20, 40]), rng.choice([7, 13, 27])
+            msgs = []
+            for src, n in ((10, nA), (11, nB), (12, nC)):
+                box[src] = bytes((src * 3 + k) % 256 for k in range(n))
+                msgs.append(NMEA2000Message(PGN=STUB_PGN, id="verifStub", priority=3, source=src, destination=255))
+            park_after = rng.randint(1, 3)            # sender A parks after this many packets
+            park_steps = 10 ** 7                     # parked until the scenario resumes the link explicitly
+            resume_after = rng.randint(0, 12)         # loop steps between starting the new sends and A's resumption
+            eof_delay = rng.randint(0, 6)             # loop steps between parking and the peer's half-close
+            new_plan = [rng.choice([0, 2, 4]) for _ in range(40)]
+
+            async def scenario(sim):
+                def on_accept(conn):
+                    if conn.id >= 1:
+                        conn.pause_plan = list(new_plan)
+                sim.on_accept.append(on_accept)
+                sim.spawn("connect")
+                await asyncio.sleep(0.1)
+                c0 = sim.conns[0]
+                sim.sent_from = len(c0.written)
+                c0.pause_plan = [0] * (park_after - 1) + [park_steps]
+                sim.spawn("send", msgs[0])
+                for _ in range(park_after + 2 + eof_delay):
+                    await asyncio.sleep(0)
+                c0.feed_eof()                          # peer half-closes: our write direction stays usable
+                for _ in range(400):
+                    if len(sim.conns) >= 2 and sim.status[-1:] == ["CONNECTED"]:
+                        break
+                    await asyncio.sleep(0.001)         # virtual time must advance for the connect timer to fire
+                sim.spawn("send", msgs[1])
+                for _ in range(rng.choice([0, 1, 3])):
+                    await asyncio.sleep(0)
+                sim.spawn("send", msgs[2])
+                for _ in range(resume_after):
+                    await asyncio.sleep(0)
+                c0._resume_writing()                   # the old link becomes writable again: A wakes up in drain()
+                await asyncio.sleep(30.0)
+                await sim.call("close")
+            sim, stats = simgw.run_session(kind, scenario)
+            acc.count("sessions")
+            acc.count("reconnect_during_send_sessions")
+            w = {"client": kind, "lengths": [nA, nB, nC], "park_after": park_after, "resume_after": resume_after, "eof_delay": eof_delay, "new_plan": new_plan[:12]}
+            if stats["error"]:
+                acc.inconclusive_because(f"simulator: {stats['error']}")
+                continue
+            acc.case((kind, "reconnect_during_send", nA, nB, nC, park_after, resume_after, eof_delay, tuple(new_plan)))
+            if len(sim.conns) < 2:
+                acc.count("no_reconnect_happened_in_session")
+                continue
+            for conn in sim.conns:
+                start = sim.sent_from if conn.id == 0 else 0
+                log = b"".join(d for _, d in conn.written[start:])
+                pk = parse_log(kind, log)
+                if pk is None:
+                    acc.violation("byte-log-not-a-packet-sequence", f"{kind}: link {conn.id}: bytes written are not whole packets", dict(w, link=conn.id))
+                    continue
+                order = [s_ for s_, _ in pk]
+                runs = [k for k, _ in itertools.groupby(order)]
+                acc.count("links_checked")
+                if len(runs) != len(set(runs)):
+                    acc.violation("packets-interleaved-across-reconnect", f"{kind}: link {conn.id}: packets of different messages interleave after a reconnect (sources in wire order {runs[:10]})",
+                                  dict(w, link=conn.id, source_order=order[:60]))
+                # what is on a link for one message must be a contiguous slice of the encoder's packets, in order
+                for m in msgs:
+                    got = norm([d for s_, d in pk if s_ == m.source], True)
+                    want = norm(reference_packets(kind, m), True)
+                    if got and not any(want[i:i + len(got)] == got for i in range(len(want) - len(got) + 1)):
+                        acc.violation("message-packets-differ-from-encoder", f"{kind}: link {conn.id}: packets of source {m.source} are not a slice of the encoder's packets", dict(w, link=conn.id))
+                    acc.count("messages_attributed")
+    finally:
+        cleanup()
+
+
 def run_shard(spec, acc):
+    if spec["what"] == "reconnect_during_send":
+        return run_reconnect_during_send(spec, acc)
     {"concurrent": run_concurrent, "unencodable": run_unencodable, "write_failure": run_write_failure}[spec["what"]](spec, acc)
 
 
